@@ -516,6 +516,109 @@ class C07(Prop):
         return {"results": results, "histogram": hist, "distinct_nontrivial": len(seen), "samples": samples}
 
 
+
+# ------------------------------------------------------------------------------------------------ C08
+def _asset_expected(doc, manifest):
+    """what the module's asset() must print for the asset jobs of the C08 generator (tag with src=asset(lit), then != asset('app.js'))"""
+    def one(a):
+        name = a.split("/")[-1]
+        r = manifest.get(name) or manifest.get(a.strip()) or a
+        return "/static/" + r.lstrip("/")
+    try:
+        lit = doc[0]["attrs"][0]["val"]["args"][0]["v"]
+        return '<script src="%s"></script>%s' % (one(lit), one("app.js"))
+    except Exception:
+        return None
+
+
+class C08(Prop):
+    id = "C08"
+    n_quick = 60
+    n_thorough = 600
+    thorough_seeds = 3
+    batch = 100
+    needs_race = True
+    required_theorems = ["C08_noninterference", "C08_render_alone", "C08_schedule_independent", "C08_render_path_writes_nothing_shared",
+                         "C08_reach_covers_executor", "C08_lock_shape", "C08_funcs_read_engine_locked", "C08_write_set_by_function"]
+    rule = ("engines with 2-6 templates (programs of the C02 loops/conditionals, C03 mixins-with-blocks, C05 attributes, C20 heap-mutation generators, templates that mutate "
+            "everything reachable from their data, templates that fail at run time, templates calling the module's asset() with a manifest.json), production and debug mode; "
+            "N in {2,4,16,64} goroutines x 3 renders x 2 (thorough: 6) rounds released together, every call with its own deep copy of the data; every result compared with the "
+            "sequential baseline on the same engine and with the Lean executor model; the whole run repeated in a -race build of the harness (GORACE halt_on_error). "
+            "Non-trivial: every case; distinct by case.")
+    assumptions = ["the schedules explored on the real engine are the ones the Go scheduler produces (sampled, not enumerated); the theorems quantify over all schedules of the model",
+                   "the Go memory model below statement level is not modelled: absence of data races is validated by the race detector on the executed paths and by the extracted "
+                   "write-set / lock-shape facts, not proved"]
+    trusted_base = COMMON_TRUST + [
+        "write-set scan of package pugjs (syntactic: assignments, ++/--, delete, atomic stores, &x arguments, method calls on package variables; roots: *Engine/*Template/*common "
+        "receivers and parameters, package variables, selector chains through their fields) and by-name call reachability - an over-approximation of aliasing it cannot see "
+        "through local pointer copies",
+        "Go race detector (validation of the unmodelled memory level)",
+        "thread safety of injected collaborators (flamingo Logger, opencensus stats, web.Router)",
+    ]
+
+    def run_cases(self, cases, tier):
+        impl = core.run_impl(cases)
+        race = core.run_impl(cases, pvh=core.PVH + "-race", env={"GORACE": "halt_on_error=1 exitcode=66"})
+        model = core.run_model(cases)
+        results, hist, seen, samples = [], {}, set(), []
+        for c in cases:
+            im, rc = impl.get(c["id"]), race.get(c["id"])
+            mo = model.get(c["id"], (None, None))[0]
+            corr, prop, detail = True, True, []
+            if not isinstance(im, dict) or im.get("class") != "ok" or not isinstance(rc, dict):
+                corr, prop = False, False
+                detail.append("harness failure: %r / %r" % (im, rc))
+            else:
+                if rc.get("class") == "process-died":
+                    prop = False
+                    detail.append("race-detector build died: " + str(rc.get("msg"))[:1500])
+                elif rc.get("class") != "ok":
+                    corr, prop = False, False
+                    detail.append("race build harness failure: %r" % (rc,))
+                for which, x in (("plain", im), ("race build", rc)):
+                    if x.get("class") == "ok" and not x.get("concurrent_equal"):
+                        prop = False
+                        detail.append("%s: a concurrent render differs from the same render alone: %s" % (which, json.dumps(x.get("first_diff"))[:600]))
+                if rc.get("class") == "ok" and rc.get("sequential") != im.get("sequential"):
+                    prop = False
+                    detail.append("sequential baselines of the two builds differ")
+                al = (mo or {}).get("alone") or []
+                if not (mo or {}).get("scheduler_model_agrees") or len(al) != len(im.get("sequential", [])):
+                    corr = False
+                    detail.append("model: %r" % (mo,))
+                man = json.loads(c.get("manifest") or "{}")
+                for j, (a, sq) in enumerate(zip(al, im.get("sequential", []))):
+                    a2, s2 = out_of(a), out_of(sq)
+                    if a2[0] == "model-domain":
+                        exp = _asset_expected(c["jobs"][j]["doc"], man)
+                        if exp is not None and s2 != ("ok", exp):
+                            prop = False
+                            detail.append("job %d: asset() output %r, expected %r" % (j, s2, exp))
+                        continue
+                    same = (a2 == s2) if (a2[0] == "ok" or s2[0] == "ok") else a2[0] == s2[0]
+                    if not same:
+                        corr = False
+                        detail.append("job %d: model %r impl %r" % (j, a2, s2))
+            results.append({"case": c, "impl": {"plain": im, "race": rc}, "model": mo, "spec": None, "corr_ok": corr, "prop_ok": prop,
+                            "detail": "; ".join(detail) or "ok"})
+            b = c.get("bucket", "?")
+            hist[b] = hist.get(b, 0) + 1
+            if isinstance(im, dict):
+                hist["renders"] = hist.get("renders", 0) + 2 * int(im.get("renders") or 0)
+                for sq in im.get("sequential", []):
+                    k = "job:" + str(sq.get("class"))
+                    hist[k] = hist.get(k, 0) + 1
+            d = core.digest({k: v for k, v in c.items() if k not in ("id", "_known")})
+            if d not in seen:
+                seen.add(d)
+                if len(samples) < 2:
+                    samples.append({"case": {k: v for k, v in c.items() if not k.startswith("_")}, "impl": im})
+        return {"results": results, "histogram": hist, "distinct_nontrivial": len(seen), "samples": samples}
+
+    def bucket(self, case, impl):
+        return case.get("bucket")
+
+
 class VerdictProp(Prop):
     """Scripted histories: the harness drives the real code and records observations; the Lean driver decides whether the
     observations are among those the model allows (membership: scheduling / wake-up order is Go's choice)."""
@@ -817,4 +920,4 @@ class C13(Prop):
         return "%s/%s" % (case.get("from"), out_of((impl or {}).get("prod"))[0])
 
 
-PROPS = {p.id: p for p in [C01(), C02(), C03(), C04(), C05(), C06(), C07(), C09(), C10(), C11(), C12(), C13(), C14(), C15(), C16(), C17(), C18(), C19(), C20()]}
+PROPS = {p.id: p for p in [C01(), C02(), C03(), C04(), C05(), C06(), C07(), C08(), C09(), C10(), C11(), C12(), C13(), C14(), C15(), C16(), C17(), C18(), C19(), C20()]}
